@@ -129,6 +129,16 @@ class Ctx:
             self.violations.append(o)
         return ok
 
+    def include(self, fn, label, *args):
+        """run a rule of another property and file its obligations under `label` (a clause that is a
+        necessary condition of both properties is decided once and reported under each)"""
+        n0 = len(self.obligations)
+        fn(self, *args)
+        for o in self.obligations[n0:]:
+            o["key"] = f"{o['rule']}:{o['key']}"
+            o["rule"] = label
+        self.violations = [o for o in self.obligations if not o["ok"]]
+
     def fail_closed(self, rule, what):
         self.ob(rule, "anchor:" + what, False, "", "anchor or floor missing (fail closed): " + what)
 
